@@ -180,6 +180,12 @@ func runC04(t *testing.T, sc *world.Scenario) *check.Result {
 		{Kind: ""}, // default PID
 	}
 	names := []string{"direct", "direct+limit", "pid(default)"}
+	if kernel.NewRand(sc.Seed, "c04.spelling").Bool(0.5) {
+		// the same default PID algorithm, asked for with the documented bare word `controlAlgorithm: pid`
+		// (decoded by the real text unmarshaller); the plain direct one likewise as `controlAlgorithm: direct`
+		algos[2] = world.AlgoSpec{Kind: "pidword"}
+		algos[0] = world.AlgoSpec{Kind: "directword"}
+	}
 	nStarts := int(sc.Params["starts"])
 	starts := []int{0, 255, lo, hi}
 	for len(starts) < nStarts {
